@@ -584,6 +584,24 @@ class Verdict:
         self.reason = reason
 
 
+DUMP = None   # dict(dir=..., limit=N, n=0): write the first N decided queries of this process as SMT-LIB2 (cross-check)
+
+
+def _dump_query(s, r):
+    import os
+    try:
+        os.makedirs(DUMP['dir'], exist_ok=True)
+        txt = s.to_smt2()
+        if len(txt) > 400000:
+            return
+        DUMP['n'] += 1
+        with open(os.path.join(DUMP['dir'], 'q%03d_%s.smt2' % (DUMP['n'], r)), 'w') as f:
+            f.write('; expected: %s\n(set-logic ALL)\n' % r)
+            f.write(txt)
+    except Exception:
+        pass
+
+
 def check_sat(constraints, timeout_ms=60000, tactic=None):
     s = z3.Solver() if tactic is None else z3.Tactic(tactic).solver()
     s.set('timeout', timeout_ms)
@@ -592,6 +610,8 @@ def check_sat(constraints, timeout_ms=60000, tactic=None):
     t0 = time.time()
     r = s.check()
     dt = time.time() - t0
+    if DUMP is not None and DUMP['n'] < DUMP['limit'] and r != z3.unknown:
+        _dump_query(s, str(r))
     if r == z3.unsat:
         return Verdict('unsat', None, dt)
     if r == z3.sat:
